@@ -288,12 +288,11 @@ func (s *TieredCompactionStrategy) CompactRange(minKey, maxKey []byte) error {
 		return fmt.Errorf("compaction failed: %w", err)
 	}
 
-	// Gather all input file paths for cleanup
+	// Gather all input file paths for cleanup, oldest data first: the files
+	// left behind by an interrupted cleanup must be the newest ones
 	var inputPaths []string
-	for _, files := range task.InputFiles {
-		for _, file := range files {
-			inputPaths = append(inputPaths, file.Path)
-		}
+	for _, file := range task.InputFilesOldestFirst() {
+		inputPaths = append(inputPaths, file.Path)
 	}
 
 	// Delete the original files that were compacted
